@@ -304,9 +304,20 @@ def textClass (cs : Text) : String :=
     | .panic m => "panic_" ++ m.replace " " "_"
   s!"scan={sc} parse={pc}"
 
+/-- `=k` as an argument token: the very same object as argument `k` (the harness binds it once and passes it
+    twice). The models are value based — sharing cannot change the outcome CLASS of a call — so the token is
+    replaced by the one it refers to. -/
+def resolveShared (toks : List String) : List String :=
+  toks.map fun t =>
+    match t.toList with
+    | '=' :: ds => (match (String.ofList ds).toNat? with
+        | some k => toks.getD k t
+        | none => t)
+    | _ => t
+
 def handle (cmd : String) (args : List String) : Option String :=
   match cmd, args with
-  | "call", name :: toks => callClass name toks
+  | "call", name :: toks => callClass name (resolveShared toks)
   | "xcall", name :: toks => callClass name toks
   | "value", [tok] => valueClass tok
   | "palette", [tok] =>
